@@ -3,6 +3,7 @@ from core import enc, q, user_fn_spec
 from gen import NAME_POOL, USER_ARITY, canonical_names, basename
 
 ID = "C05"
+HEAP_SUMMARY = True      # end every program with the reference-level observation (BB.Model.Heap vs id() walk)
 LEAN_MODULE = "BB.Properties.C05"
 QUICK_N = 250
 THOROUGH_N = 5000
